@@ -3,6 +3,7 @@
 # usage: ./soak.sh <first-seed> <last-seed> [tier]
 cd "$(dirname "$0")"
 tier=${3:-quick}
+export VERIF_DIR="$(pwd)"
 ./check build || exit 2
 bad=0
 for s in $(seq $1 $2); do
